@@ -4,7 +4,7 @@
    C18_close_sqrt_real gives the reading over the reals. *)
 From Coq Require Import QArith Qabs Reals Qreals.
 From EsVerif.Common Require Import Base.
-From EsVerif.C18 Require Import Model Spec QLemmas MomProofs MedianProofs ClipProofs InterpProofs CorProofs SpecStrict ClipStrict ClipReal GsProofs BoxProofs Gen GenProofs.
+From EsVerif.C18 Require Import Model Spec QLemmas MomProofs MedianProofs ClipProofs InterpProofs CorProofs SpecTol TolProofs SpecStrict ClipStrict ClipReal GsProofs BoxProofs Gen GenProofs.
 Open Scope Q_scope.
 
 (* ------------------------------------------------------------------ weighted moments *)
@@ -311,6 +311,19 @@ Theorem C18_strict_checker_sound : forall weighted nsig niter all mean sdev err 
   sigma_clip_strict_ok weighted nsig niter all mean sdev err idx.
 Proof. exact sigma_clip_strict_check_sound. Qed.
 
+(* the parametrised checkers used for calls that compute in float32 (SpecTol.v, evaluated at eps_f4)
+   are, at eps9, the verified checkers above *)
+Theorem C18_tol_checkers_at_eps9 :
+  (forall r A im ce mean err sdev, mom_close_e eps9 r A im ce mean err sdev = mom_close r A im ce mean err sdev)
+  /\ (forall arr wts im ce sd om oe os, wmom_check_e eps9 arr wts im ce sd om oe os = wmom_check arr wts im ce sd om oe os)
+  /\ (forall wtd nsig niter all mean sdev err idx,
+        sigma_clip_check_e eps9 wtd nsig niter all mean sdev err idx = sigma_clip_check wtd nsig niter all mean sdev err idx)
+  /\ (forall v x u y, interp_check_e eps9 v x u y = interp_check v x u y)
+  /\ (forall c num den2, cor_close_b_e eps9 c num den2 = cor_close_b c num den2)
+  /\ (forall cov cor, cov2cor_check_e eps9 cov cor = cov2cor_check cov cor)
+  /\ (forall n a b, mat_close_b_e eps9 n a b = mat_close_b n a b).
+Proof. exact tol_checkers_at_eps9. Qed.
+
 (* ------------------------------------------------------------------ tie to the source text *)
 (* Gen.v is printed from esutil/stat/util.py of the tree under check on every run
    (harness/props/c18_translate.py).  The theorems below say that the model the theorems above are
@@ -428,6 +441,13 @@ Theorem C18_gen_boxcar : forall x N,
          nth k out 0 == conv_full x (repeat (gen_boxcar_weight (inject_Z N)) (Z.to_nat N))
                                   (k + Z.to_nat (gen_boxcar_skip N)).
 Proof. exact gen_boxcar_convolution. Qed.
+
+(* dtype pins: weights (wmom, wmedian, sigma_clip) and get_stats data are cast to float64, the result
+   matrices of cov2cor / cor2cov are allocated as float64 whatever the dtype of the input *)
+Theorem C18_gen_result_dtypes :
+  gen_wmom_weights_f64 = true /\ gen_wmedian_weights_f64 = true /\ gen_sigma_clip_weights_f64 = true
+  /\ gen_get_stats_data_f64 = true /\ gen_cov2cor_result_f64 = true /\ gen_cor2cov_result_f64 = true.
+Proof. exact gen_result_dtypes. Qed.
 
 (* ------------------------------------------------------------------ non-vacuity *)
 Fixpoint forallb2_eq (a b : list Q) : bool :=
